@@ -213,16 +213,16 @@ Qed.
     list. *)
 Definition wf (st : pstate) : Prop :=
   Forall (fun t => is_eof t = false) (rest st) /\
-  (is_eof (cur st) = true -> pcum (cur st) = fin st).
+  (is_eof (cur st) = true -> rest st = [] /\ cur st = eof_tok (fin st)).
 
 Lemma wf_reach st st' : reach st st' -> wf st -> wf st'.
 Proof.
   induction 1; intros Hw; auto; apply IHreach; destruct Hw as [Hr Hc]; split; auto.
-  unfold p_next. destruct (rest st) as [|t r]; cbn [rest cur fin].
-  - constructor.
-  - now inversion Hr.
-  - unfold p_next. destruct (rest st) as [|t r]; cbn [rest cur fin]; [reflexivity|].
-    inversion Hr; subst. intros E. cbn [cur] in E. congruence.
+  - unfold p_next. destruct (rest st) as [|t r]; cbn [rest cur fin].
+    + constructor.
+    + now inversion Hr.
+  - unfold p_next. destruct (rest st) as [|t r]; cbn [rest cur fin]; [auto|].
+    inversion Hr; subst. intros E. congruence.
 Qed.
 
 Lemma fin_reach st st' : reach st st' -> fin st' = fin st.
@@ -244,8 +244,8 @@ Qed.
 Lemma eof_no_errors st :
   wf st -> p_see TEOF st = true -> p_errs st = [] -> fin st = [].
 Proof.
-  intros [_ Hc] He Hp. specialize (Hc He). unfold p_errs in Hp. rewrite Hc in Hp.
-  destruct (fin st); [reflexivity|discriminate].
+  intros [_ Hc] He Hp. destruct (Hc He) as [_ Hcur]. unfold p_errs in Hp. rewrite Hcur in Hp.
+  cbn [pcum eof_tok] in Hp. destruct (fin st); [reflexivity|discriminate].
 Qed.
 
 (** ** The streams the tokenizer builds are well-formed *)
@@ -297,7 +297,7 @@ Lemma p_init_wf s :
 Proof.
   intros H. unfold p_init, p_next. cbn [rest fin perrs jail].
   destruct (sbody s) as [|t r]; cbn [rest cur fin].
-  - split; [split; [constructor|reflexivity]|reflexivity].
+  - split; [split; [constructor|auto]|reflexivity].
   - inversion H as [|? ? Ht Hr]; subst.
     split; [split; [exact Hr|intros E; cbn [cur] in E; congruence]|reflexivity].
 Qed.
@@ -374,6 +374,32 @@ Proof.
   destruct (p_errs st2) eqn:Ep; [|discriminate].
   rewrite <- Hf, <- (fin_reach _ _ Hr2).
   apply eof_no_errors; auto. eapply wf_reach; eauto.
+Qed.
+
+(** Trailing content: an accepted document has nothing after the value and
+    at most one separator: the cursor is the final EOF. *)
+Theorem unmarshal_stream_ok_consumed s t :
+  Forall (fun t => is_eof t = false) (sbody s) ->
+  unmarshal_stream pf ff s = Some (UOk t) ->
+  exists v st1,
+    parse_value pf (parse_fuel (p_init s)) (p_init s) = Some (v, st1) /\
+    let st2 := if p_see TSemi st1 then p_next st1 else st1 in
+    rest st2 = [] /\ cur st2 = eof_tok (sfin s).
+Proof.
+  intros Hb H. unfold unmarshal_stream in H.
+  destruct (p_init_wf s Hb) as [Hw Hf].
+  destruct (parse_value pf _ (p_init s)) as [[v st1]|] eqn:E; [|discriminate].
+  pose proof (parse_value_reach _ _ _ _ E) as Hr.
+  destruct (p_errs st1); [|discriminate].
+  destruct (marshal_value ff v) as [[t'|] es]; [|discriminate].
+  destruct (json_valid t'); [|discriminate].
+  exists v, st1. split; [reflexivity|].
+  set (st2 := if p_see TSemi st1 then p_next st1 else st1) in *.
+  assert (Hr2 : reach (p_init s) st2).
+  { subst st2. destruct (p_see TSemi st1); [eapply reach_trans; [exact Hr|apply reach_next]|exact Hr]. }
+  destruct (p_see TEOF st2) eqn:Ee; [|discriminate].
+  destruct (wf_reach _ _ Hr2 Hw) as [_ Hc]. destruct (Hc Ee) as [H1 H2].
+  split; [exact H1|]. now rewrite H2, (fin_reach _ _ Hr2), Hf.
 Qed.
 
 Theorem decode_series_stream_ok_no_lex_errors tm s res :
